@@ -9,7 +9,7 @@ from vmon.core import HELD, INCONCLUSIVE, OUT_OF_SCOPE, VIOLATED, BudgetExceeded
 from workloads import layout as WL
 
 
-def plan(tier, seed, quick_n=220, thorough_n=4000, quick_k=15, thorough_k=80):
+def plan(tier, seed, quick_n=220, thorough_n=3000, quick_k=15, thorough_k=48):
     k = quick_k if tier == "quick" else thorough_k
     n = quick_n if tier == "quick" else thorough_n
     shards = [{"kind": "layout", "sub": i, "n": n} for i in range(k)]
